@@ -47,6 +47,20 @@ def run(ctx):
         want = ('confirm::Iter{done: false, next: None, parent: self, payload: payload, to_confirm: |$c0| value:to_confirm(confirm::ConfirmPayload{delivery_tag: $c0, multiple: false})}')
         r.eq('new_iter', S.show(t), want, ctx.site('confirm::ConfirmSmoother::new_iter'), why='the constructor of the raw confirmation builds each smoothed one, with multiple: false')
         r.check('rows', len(rows) == 6, site, built=len(rows), expected=6)
+        nrows = P.table(ctx, 'confirm::ConfirmSmoother::new_iter', ['self', 'payload', 'to_confirm'])
+        r.check('new_iter:no-effect', len(nrows) == 1 and [e for e in nrows[0].effects if not e.startswith('value:to_confirm(')] == [], ctx.site('confirm::ConfirmSmoother::new_iter'),
+                built=[x.row() for x in nrows], expected='building the iterator changes nothing', why='the stash and `expected` change only as items are emitted')
+        muts = {}
+        for p_, fn_ in sorted(ctx.fns.items()):
+            if 'hir' not in fn_ or fn_.get('cfg_test') or fn_.get('mac') or not p_.startswith(('confirm::', '<confirm::')):
+                continue
+            for nd in H.walk(fn_['hir']):
+                if nd.get('k') == 'MethodCall' and H.term(nd['recv']).endswith('out_of_order') and 'HashMap' in nd.get('recv_ty', ''):
+                    muts.setdefault(ctx.owner(p_), []).append(nd['name'])
+                if nd.get('k') in ('Assign', 'AssignOp') and H.peel(nd['l']).get('k') == 'Field' and H.peel(nd['l'])['name'] in ('expected', 'out_of_order'):
+                    muts.setdefault(ctx.owner(p_), []).append(H.peel(nd['l'])['name'] + (nd.get('op') or '=').rstrip('=') + '=')
+        r.eq('state-mutators', {k: sorted(v) for k, v in muts.items()}, {NEXT: sorted(['insert', 'remove', 'remove', 'remove', 'expected+=', 'expected+=', 'expected+='])}, site,
+             why='the stash is touched only by the stash / look-up steps of next(), `expected` only by its increments')
 
     with ctx.rule('R14.2', 'exactly one increment of `expected` per emitted item, none otherwise; the emitted tag is the pre-increment expected', floor=6) as r:
         for i, x in enumerate(rows):
